@@ -26,6 +26,12 @@ var trUnits = []*trUnit{
 	}},
 	{pkg: "lib/model/posting", mod: "Posting", funcs: []string{"Builder.Build", "Builders.Build", "Compare"}},
 	{pkg: "lib/model/transaction", mod: "Transaction", funcs: []string{"Compare", "Builder.Build"}},
+	{pkg: "lib/model/open", mod: "Open", funcs: nil},
+	{pkg: "lib/model/close", mod: "Close", funcs: nil},
+	{pkg: "lib/model/assertion", mod: "Assertion", funcs: nil},
+	{pkg: "lib/common/set", mod: "Set", funcs: []string{"Set.Add", "Set.Has", "Set.Remove"}},
+	{pkg: "lib/amounts", mod: "Amounts", funcs: []string{"AccountCommodityKey", "Amounts.Add"}},
+	{pkg: "lib/journal/check", mod: "Check", funcs: []string{"Checker.open", "Checker.posting", "Checker.balance", "Checker.close"}},
 	{pkg: "lib/model/price", mod: "Price", funcs: []string{
 		"Multiply", "newNormalizedPrices", "Prices.addPrice", "Prices.Insert", "NormalizedPrices.Price", "NormalizedPrices.Valuate",
 	}},
@@ -44,13 +50,15 @@ func (t *trTranslator) findFunc(p *trPkg, name string) *ast.FuncDecl {
 			}
 			r := ""
 			if fd.Recv != nil && len(fd.Recv.List) == 1 {
-				switch x := fd.Recv.List[0].Type.(type) {
-				case *ast.Ident:
-					r = x.Name
-				case *ast.StarExpr:
-					if id, ok := x.X.(*ast.Ident); ok {
-						r = id.Name
-					}
+				rt := fd.Recv.List[0].Type
+				if st, ok := rt.(*ast.StarExpr); ok {
+					rt = st.X
+				}
+				if ix, ok := rt.(*ast.IndexExpr); ok { // generic receiver Set[T]
+					rt = ix.X
+				}
+				if id, ok := rt.(*ast.Ident); ok {
+					r = id.Name
 				}
 			}
 			if r == recv {
@@ -190,9 +198,6 @@ func (t *trTranslator) translateFunc(f *trFunc) {
 	if f.decl.Body == nil {
 		trFail(f.decl.Pos(), "function without a body")
 	}
-	if f.decl.Type.TypeParams != nil {
-		trFail(f.decl.Pos(), "generic function is outside the subset")
-	}
 	if errs := f.pkg.errorsIn(f.decl.Pos(), f.decl.End()); len(errs) > 0 {
 		trFail(errs[0].Pos, "uses a declaration outside the prelude and the translated packages: %s", errs[0].Msg)
 	}
@@ -209,6 +214,26 @@ func (t *trTranslator) translateFunc(f *trFunc) {
 		return true
 	})
 	var params []string
+	// type parameters (of the function or of its generic receiver): comparable → DecidableEq; every one may be zero-valued
+	addTParams := func(l *types.TypeParamList) {
+		if l == nil {
+			return
+		}
+		for i := 0; i < l.Len(); i++ {
+			tp := l.At(i)
+			n := trMangle(tp.Obj().Name())
+			switch cons := tp.Constraint().String(); cons {
+			case "comparable":
+				params = append(params, "{"+n+" : Type} [DecidableEq "+n+"] [GoZero "+n+"]")
+			case "any", "interface{}":
+				params = append(params, "{"+n+" : Type} [GoZero "+n+"]")
+			default:
+				trFail(f.decl.Pos(), "type parameter %s with the constraint %s is outside the subset", n, cons)
+			}
+		}
+	}
+	addTParams(sig.RecvTypeParams())
+	addTParams(sig.TypeParams())
 	addParam := func(v *types.Var, pos token.Pos) {
 		n := c.local(v)
 		if n == "_" {
@@ -272,6 +297,8 @@ func (t *trTranslator) translateFunc(f *trFunc) {
 		return c.returnTerm(nil, f.decl.End())
 	}
 	term := c.stmts(body, end)
+	params = append(params, c.extraParams...)
+	f.norder = len(c.extraParams)
 	ret := f.resType
 	if f.effect {
 		ret = "Outcome " + f.resType
@@ -381,7 +408,11 @@ func trRun(repo string) (map[string]string, []string) {
 				t.rejects = append(t.rejects, fmt.Sprintf("trans-reject %s %s: no type information", u.mod, name))
 				continue
 			}
-			f := &trFunc{unit: u, pkg: p, decl: fd, obj: obj, leanName: name}
+			parts := strings.Split(name, ".")
+			for i := range parts {
+				parts[i] = trMangle(parts[i])
+			}
+			f := &trFunc{unit: u, pkg: p, decl: fd, obj: obj, leanName: strings.Join(parts, ".")}
 			t.funcs[obj] = f
 			t.byUnit[u] = append(t.byUnit[u], f)
 		}
